@@ -4,7 +4,8 @@
     point PGM / AcceleratedPGM hand to them).  Defect of the unchanged tree (line-search exhaustion): Findings/C16_linesearch_exhaust.v. *)
 From Coq Require Import Bool Arith Reals Lra List.
 Import ListNotations.
-From SV Require Import Base.Num C16.XR C16.StepSize C16.StepSizeR.
+From SV Require Import Base.Num C16.XR C16.StepSize C16.StepSizeR C16.QuadGen.
+From SVGen Require Import C16_fquad.
 Local Open Scope R_scope.
 
 (** ** Barzilai-Borwein *)
@@ -175,6 +176,18 @@ Theorem C16_ls_positive :
     0 < L -> 0 < gu -> 0 < fst (fst (ls_loop acc gu n L it)).
 Proof. exact ls_positive. Qed.
 Print Assumptions C16_ls_positive.
+
+(** the quadratic model the searches test against: the definition regenerated from
+    PGM.f_quad_approx on every run is the documented f(y) + Re<grad f(y), x-y> + L/2 ||x-y||^2,
+    the norm being the Euclidean norm of the flattened array (all entries of an image-shaped iterate) *)
+Theorem C16_fquad_generated_is_documented :
+  forall (K : Type) (NK : Num K) (V : Type) (vsub : V -> V -> V) (fval : V -> K) (fgrad : V -> V)
+         (re_ip : V -> V -> K) (norm2 : V -> K) x y L,
+    f_quad_approx_gen V vsub fval fgrad re_ip norm2 x y L =
+    kadd (kadd (fval y) (re_ip (fgrad y) (vsub x y)))
+         (kmul (kmul khalf L) (kmul (norm2 (vsub x y)) (norm2 (vsub x y)))).
+Proof. intros K NK V vsub fval fgrad re_ip norm2. exact (fquad_gen_is_documented V vsub fval fgrad re_ip norm2). Qed.
+Print Assumptions C16_fquad_generated_is_documented.
 
 (** ** Robust line search (arbitrary vector type, x_step, f, f_quad_approx, sqrt) *)
 
